@@ -105,6 +105,26 @@ fn known_upward_sites() -> &'static Vec<String> {
     })
 }
 
+/// a named list of the open finding KF-C15-1
+fn known_list(name: &str) -> Vec<String> {
+    static K: OnceLock<Value> = OnceLock::new();
+    let v = K.get_or_init(|| {
+        let path = format!("{}/known_findings.json", verif_dir());
+        std::fs::read_to_string(path).ok().and_then(|t| serde_json::from_str::<Value>(&t).ok()).unwrap_or(Value::Null)
+    });
+    let mut out = vec![];
+    for f in v["findings"].as_array().cloned().unwrap_or_default() {
+        if f["property"] == "C15" && f["status"] == "open" {
+            for s in f[name].as_array().cloned().unwrap_or_default() {
+                if let Some(s) = s.as_str() {
+                    out.push(s.to_string());
+                }
+            }
+        }
+    }
+    out
+}
+
 /// holding sites of the open finding KF-C15-1 (sites where a lock was taken that another blocked thread waits for)
 fn known_hold_sites() -> &'static Vec<String> {
     static K: OnceLock<Vec<String>> = OnceLock::new();
@@ -189,8 +209,33 @@ fn deadlock_signature(dl: &DeadlockInfo) -> (String, String) {
             eprintln!("HOLDSITE {p}");
         }
     }
+    // third dimension: requests for a READ lock by a thread that already holds that lock for reading (they only block when
+    // a writer waits in between: parking_lot's documented recursion hazard). The pinned code has some; a new one is new.
+    let mut recs: Vec<String> = dl
+        .blocked
+        .iter()
+        .filter(|(_, r, held)| r.mode == autosar_data::verif::LockMode::Read && held.iter().any(|h| h.lock == r.lock && h.mode == autosar_data::verif::LockMode::Read))
+        .map(|(_, r, _)| descriptor(r))
+        .collect();
+    recs.sort();
+    recs.dedup();
+    if std::env::var("VERIF_DUMP_SITES").is_ok() {
+        for p in &recs {
+            eprintln!("RECSITE {p}");
+        }
+    }
+    let known_r = known_list("recursive_read_sites");
+    let unknown_r: Vec<&String> = recs.iter().filter(|p| !known_r.contains(p)).collect();
     let known = known_wait_sites();
-    let unknown: Vec<&String> = parts.iter().filter(|p| !known.contains(p)).collect();
+    // every blocking read() / write() call of the pinned sources is a possible wait site (list computed from the sources,
+    // so it is complete by construction: "file:function#ordinal/mode"); what was seen waiting is recorded with its lock class too
+    let static_sites = known_list("static_blocking_sites");
+    let is_static = |p: &String| -> bool {
+        let mut it = p.rsplitn(3, '/');
+        let (mode, _class, head) = (it.next().unwrap_or(""), it.next().unwrap_or(""), it.next().unwrap_or(""));
+        static_sites.contains(&format!("{head}/{mode}"))
+    };
+    let unknown: Vec<&String> = parts.iter().filter(|p| !known.contains(p) && !is_static(p)).collect();
     let known_h = known_hold_sites();
     let unknown_h: Vec<&String> = holds.iter().filter(|p| !known_h.contains(p)).collect();
     let sig = if std::env::var("VERIF_DUMP_SITES").is_ok() {
@@ -200,6 +245,8 @@ fn deadlock_signature(dl: &DeadlockInfo) -> (String, String) {
         format!("deadlock:new-wait-site:{}", unknown[0])
     } else if !unknown_h.is_empty() {
         format!("deadlock:new-holding-site:{}", unknown_h[0])
+    } else if !unknown_r.is_empty() {
+        format!("deadlock:new-recursive-read-site:{}", unknown_r[0])
     } else {
         "deadlock:all-blocked-requests-at-recorded-wait-sites".to_string()
     };
@@ -294,10 +341,14 @@ pub fn judge(which: Which, c: &ConcCase, st: &mut Stats) -> Result<(), Failure> 
     let mut names: Vec<&str> = c.threads.iter().flat_map(|t| t.iter().map(|o| OP_NAMES[o.code as usize % OP_NAMES.len()])).collect();
     names.sort();
     names.dedup();
-    let classify = |names: &Vec<&str>| -> String {
-        let sig = format!("not-serializable:{}", names.join("+"));
+    let classify = |names: &Vec<&str>, kind: &str| -> String {
+        // what is wrong is part of the signature: an invariant class (paths, refs, membership, tree), a state that no order
+        // yields, or only the results
+        let sig = format!("not-serializable:{}/{}", names.join("+"), kind);
         if std::env::var("VERIF_DUMP_SITES").is_ok() {
+            // collection mode (development): print and keep exploring
             eprintln!("NONSER {sig}");
+            return "not-serializable:recorded-operation-pair".to_string();
         }
         let k = known_nonserializable();
         if k.contains(&sig) || k.iter().any(|w| w.starts_with('*') && names.contains(&&w[1..])) {
@@ -307,7 +358,8 @@ pub fn judge(which: Which, c: &ConcCase, st: &mut Stats) -> Result<(), Failure> 
         }
     };
     if let Err((sig, msg)) = &out.inv {
-        return Err(Failure::new(classify(&names), format!("after the concurrent run an invariant is broken ({sig}): {msg}\noperations: {}\nschedule choices: {:?}", c.describe(), out.info.points.iter().map(|p| p.1).collect::<Vec<_>>()), c.to_json()));
+        let kind = format!("inv:{}", sig.split(':').next().unwrap_or("other"));
+        return Err(Failure::new(classify(&names, &kind), format!("after the concurrent run an invariant is broken ({sig}): {msg}\noperations: {}\nschedule choices: {:?}", c.describe(), out.info.points.iter().map(|p| p.1).collect::<Vec<_>>()), c.to_json()));
     }
     let summary = out.summary.clone().unwrap_or_default();
     let seqs = sequential_outcomes(c, &skip);
@@ -321,8 +373,9 @@ pub fn judge(which: Which, c: &ConcCase, st: &mut Stats) -> Result<(), Failure> 
             })
     });
     if !matches {
-        // classify: results differ, or only the final state
-        let sig = classify(&names);
+        // classify: only the results differ (some order yields the state), or the final state itself
+        let kind = if seqs.iter().any(|(_, sum)| *sum == summary) { "results" } else { "state" };
+        let sig = classify(&names, kind);
         let mut msg = format!("no sequential order of the operations yields the results {:?} together with the final state of the concurrent run\noperations: {}\nschedule choices: {:?}\n", results, c.describe(), out.info.points.iter().map(|p| p.1).collect::<Vec<_>>());
         for (i, (res, sum)) in seqs.iter().enumerate().take(2) {
             msg.push_str(&format!("sequential order {i}: results {:?}; state {}\n", res, if *sum == summary { "equal" } else { "differs" }));
